@@ -54,8 +54,8 @@ def worker(states):
         out['nontrivial'] += nontrivial
         case = dict(tree=tree, law=run['law'], observed=[[e['p'], e['v']] for e in obs['log']], text=repr(obs['spec']))
         why = None
-        if obs['out'] != 'ok':
-            why = 'call failed: %r' % (obs['error'],)
+        if obs['out'] != run['out']:
+            why = 'call outcome %s (%r), expected %s' % (obs['out'], obs['error'], run['out'])
         elif [e['p'] for e in obs['log']] != [e['p'] for e in run['log']]:
             why = 'probes ran %s, expected %s' % ([e['p'] for e in obs['log']], [e['p'] for e in run['log']])
         else:
@@ -79,17 +79,19 @@ def rand_tree(rng, depth, mode='AUTO'):
     P = {'k': 'probe', 'a': '', 'c': []}
     if depth == 0 or rng.random() < 0.2:
         return P
-    kinds = ['auto', 'fill', 'match', 'pipe', 'pipe', 'coal', 'switch']
-    if mode != 'MATCH':
+    kinds = ['auto', 'fill', 'match', 'group', 'pipe', 'pipe', 'coal', 'switch']
+    if mode not in ('MATCH', 'GROUP'):
         kinds += ['tup', 'tup', 'dict']
-    else:
+    elif mode == 'MATCH':
         kinds += ['mdict', 'mdict']
     k = rng.choice(kinds)
 
     def sub(m=mode):
         return rand_tree(rng, depth - 1, m)
-    if k in ('auto', 'fill', 'match'):
-        return {'k': k, 'a': '', 'c': [sub({'auto': 'AUTO', 'fill': 'FILL', 'match': 'MATCH'}[k])]}
+    if k == 'group' and rng.random() < 0.3:
+        return {'k': 'group', 'a': '', 'c': [{'k': 'stop', 'a': '', 'c': []}]}
+    if k in ('auto', 'fill', 'match', 'group'):
+        return {'k': k, 'a': '', 'c': [sub({'auto': 'AUTO', 'fill': 'FILL', 'match': 'MATCH', 'group': 'GROUP'}[k])]}
     if k in ('tup', 'pipe', 'dict'):
         return {'k': k, 'a': '', 'c': [sub() for _ in range(rng.randint(1, 3))]}
     if k == 'coal':
@@ -97,9 +99,13 @@ def rand_tree(rng, depth, mode='AUTO'):
     if k == 'switch':
         return {'k': k, 'a': '', 'c': [sub(), sub()]}
     key = sub()
-    while has_dict(key):
+    while has_dict(key) or has_kind(key, 'group'):
         key = sub()
     return {'k': 'mdict', 'a': '', 'c': [key, sub()]}
+
+
+def has_kind(t, k):
+    return t['k'] == k or any(has_kind(c, k) for c in t['c'])
 
 
 def has_dict(t):
@@ -112,12 +118,7 @@ def record(check, n, seed):
     for _ in range(n):
         tree = rand_tree(rng, rng.randint(3, 5))
         obs = frames.execute(tree, [])
-        if obs['out'] != 'ok':
-            check.violation(dict(tree=tree, text=repr(obs['spec']), error=repr(obs['error'])),
-                            'a tree whose leaves all succeed failed: %r raised %r' % (obs['spec'], obs['error']),
-                            matcher=match_finding)
-            continue
-        rows.append(dict(tree=tree, log=[{'p': e['p'], 'v': e['v']} for e in obs['log']],
+        rows.append(dict(tree=tree, out=obs['out'], log=[{'p': e['p'], 'v': e['v']} for e in obs['log']],
                          enters=[{'f': e['f'], 'par': e['par'], 'path': e['path'], 'mode': e['mode'], 'minmode': e['minmode']}
                                  for e in obs['events'] if e['a'] == 'enter'],
                          text=repr(obs['spec'])))
@@ -171,7 +172,7 @@ def main(tier, seed):
     check.extra['recorded_rows'] = record(check, {'quick': 3000, 'thorough': 30000}[tier], seed)
     import c08_shape
     c08_shape.run(check, tier, seed)
-    check.assumptions += ['Group mode wrappers are not part of the frame universe (Group iterates its target)',
+    check.assumptions += ['raw tuples / dicts under Group are accumulators and are generated only outside Group; a STOP leaf is generated only directly under Group',
                           'raw tuples / dicts directly under Match are patterns and are generated only where meaningful',
                           'DRIFT (hook event sequence differs from the mechanism model while the law holds) is reported, not alarmed']
     return check.finish(rule='TLC enumerates wrapper/composite trees by constructor choice (depth 2 with action replay, depth 3 '
